@@ -31,9 +31,17 @@ def prove_all_zero(exprs, what, timeout_ms=20000):
     if not nz:
         return S.prove_zero(SR(QZERO), what, timeout_ms=timeout_ms)
     base = S.context_constraints()
-    goal = z3.Or([S.poly_to_z3(n) != 0 for n in nz[:400]])
+    nterms = sum(len(n.t) for n in nz)
+    if len(nz) > 4:
+        # cheap first attempt at a counterexample: the few smallest residuals only (a model of one non-zero
+        # residual already refutes the goal; an unsat answer here proves nothing and the full query follows)
+        small = sorted(nz, key=lambda n: len(n.t))[:4]
+        rs, m, dt = S.check(base + [z3.Or([S.poly_to_z3(n) != 0 for n in small])], timeout_ms)
+        if rs == "sat":
+            return S.Verdict(rs, what, nz, S.model_point(m), dt, None, nterms)
+    goal = z3.Or([S.poly_to_z3(n) != 0 for n in nz])
     rs, m, dt = S.check(base + [goal], timeout_ms)
-    return S.Verdict(rs, what, nz, S.model_point(m) if m is not None else None, dt, None, sum(len(n.t) for n in nz))
+    return S.Verdict(rs, what, nz, S.model_point(m) if m is not None else None, dt, None, nterms)
 
 
 def prove_concrete(ok, what):
@@ -82,14 +90,85 @@ class AbsNumpy(shim.SymNumpy):
 
 def getv(point, name, default):
     v = point.get(name)
-    return float(v) if v is not None else default
+    if v is None:
+        return default
+    try:
+        return float(v)
+    except (TypeError, ValueError):
+        try:
+            from fractions import Fraction
+
+            return float(Fraction(str(v).rstrip("?")))
+        except (TypeError, ValueError, ZeroDivisionError):
+            return default
+
+
+def _marker(key):
+    import hashlib
+    import os
+
+    d = "/tmp/symx_markers_%d" % os.getppid()
+    return d, os.path.join(d, hashlib.sha1(key.encode()).hexdigest()[:16])
 
 
 def decide(log, verdict, key, **kw):
-    """log.decide, except that once a replayed violation exists for `key` in this case, further failing
-    obligations with the same key are recorded (undischarged) without spending another replay on them."""
-    if not verdict.holds and any(v["key"] == key for v in log.violations):
-        log.obligations.append({"case": log.case, "what": verdict.what, "status": verdict.status, "time_s": round(verdict.time, 4),
-                                "residual_terms": verdict.nterms, "note": "same key already violated in this case"})
-        return False
-    return log.decide(verdict, key, **kw)
+    """log.decide, except that once a replayed violation exists for `key` (in this case, or in another case of the same
+    check run: marker file keyed by the parent pid), further failing obligations with the same key are recorded as
+    undischarged without spending another replay + clean-interpreter confirmation on them."""
+    import os
+
+    if not verdict.holds:
+        d, mk = _marker(key)
+        if any(v["key"] == key for v in log.violations) or os.path.exists(mk):
+            log.obligations.append({"case": log.case, "what": verdict.what, "status": verdict.status, "time_s": round(verdict.time, 4),
+                                    "residual_terms": verdict.nterms, "note": "same key already violated (replayed) in this run"})
+            return False
+    r = log.decide(verdict, key, **kw)
+    if not r and any(v["key"] == key for v in log.violations):
+        try:
+            os.makedirs(d, exist_ok=True)
+            open(mk, "w").close()
+        except OSError:
+            pass
+    return r
+
+
+def cleanup_markers():
+    import os
+    import shutil
+
+    shutil.rmtree("/tmp/symx_markers_%d" % os.getpid(), ignore_errors=True)
+
+
+def explore(fn, max_paths=512, timeout_ms=15000):
+    """symx.solver.explore with two differences: a longer feasibility timeout (the host is shared), and a path that the
+    path manager entered only because a feasibility query came back `unknown` (timeout) and that later turns out to have
+    an unsatisfiable path condition ("infeasible path reached") is dropped instead of aborting the whole exploration.
+    Dropping is sound: the path condition of such a path is unsat, so no input follows it."""
+    from symx.val import EngineError
+
+    pm = S.PathManager(max_paths, timeout_ms)
+    pm.pending = [[]]
+    pm.dropped = 0
+    results = []
+    while pm.pending:
+        if pm.paths >= pm.max_paths:
+            raise S.PathBudgetExceeded("more than %d paths" % pm.max_paths)
+        pm.prefix = pm.pending.pop()
+        pm.trace = []
+        pm.pos = 0
+        pm.pc = []
+        ctx.reset()
+        ctx.path = pm
+        try:
+            r = fn()
+        except EngineError as e:
+            if "infeasible path" in str(e) and pm.unknown_feas > 0 and pm.prefix:
+                pm.dropped += 1
+                continue
+            raise
+        finally:
+            ctx.path = None
+        pm.paths += 1
+        results.append(r)
+    return results, pm
